@@ -128,6 +128,7 @@ static void modelTest(const Desc& d, const Vec<int>& testGroups, const Vec<int>&
             case K_DIE_ABORT: x.childEnd = 1; x.childValue = 6; return;
             case K_DIE_EXIT: x.childEnd = 2; x.childValue = (int)(o.a & 0xff); return;
             case K_DIE_STOP: x.childStops++; break;
+            case K_NESTED_RUN: if (o.b & 1) ptrSets = 0; break;      // the nested registry's pointer plugin restores, after the nested test, everything recorded so far: the table is empty again
             case K_PTR_SET:
                 if (ptrSets >= MAX_SET) {
                     probe("ptr_table_overflow");
